@@ -176,10 +176,15 @@ def check_rect(amin, amax, bmin, bmax):
     except Exception as e:  # noqa: BLE001
         return [Failure('knee_ranking.rect_overlap', lib.exc_kind(e), key, case, repr(e), (0, 0))]
     e = float(rect_exact(amin, amax, bmin, bmax))
+    A, B = F2(amin), F2(amax)
+    C, D = F2(bmin), F2(bmax)
+    # two rectangles of zero area: the union is empty and intersection-over-union is 0/0 - the definition does not
+    # extend there (the statement only fixes "1 for identical NON-degenerate rectangles"); range and symmetry still apply
+    undefined = (B[0] - A[0]) * (B[1] - A[1]) == 0 and (D[0] - C[0]) * (D[1] - C[1]) == 0
     out = []
-    if not close(got, e, 0.0):
+    if not undefined and not close(got, e, 0.0):
         out.append(Failure('knee_ranking.rect_overlap', 'not-intersection-over-union', key, case, 'expected %r observed %r' % (e, got), (0, 0)))
-    elif got != sym:
+    elif not close(got, sym, 0.0):
         out.append(Failure('knee_ranking.rect_overlap', 'not-symmetric', key, case, '%r vs %r' % (got, sym), (0, 0)))
     elif not (0.0 <= got <= 1.0):
         out.append(Failure('knee_ranking.rect_overlap', 'out-of-range', key, case, repr(got), (0, 0)))
